@@ -323,6 +323,12 @@ class Formula:
                 env[bs[0]["local"]] = self.expr(c, s0["init"], env)
             elif s0.get("k") in ("Match", "If", "Block") and self.is_assertion(c, s0):
                 continue
+            elif s0.get("k") == "MethodCall" and s0["name"] in ("mapv_inplace", "map_inplace") and len(s0["args"]) == 1 and peel_refs(s0["recv"]).get("k") == "Path" and peel_refs(s0["recv"]).get("local") in env:
+                tgt = peel_refs(s0["recv"])["local"]
+                v0 = env[tgt]
+                env[tgt] = V(v0.kind, self.closure_apply(c, s0["args"][0], [V(v0.kind, v0.r)], env).r)
+            elif s0.get("k") == "MethodCall" and s0["name"] == "for_each" and len(s0["args"]) == 1 and self.zip_update(c, s0, env):
+                continue
             elif self.skip_early_returns and s0.get("k") == "If" and s0.get("else") is None and any(z.get("k") == "Ret" for z in walk(s0["then"])):
                 continue
             else:
@@ -344,6 +350,114 @@ class Formula:
                 out = out + term
             return out
         return Rat(sub(r.num), sub(r.den))
+
+    def zip_update(self, c, call, env):
+        """`Zip::from(&mut a).and(b).for_each(|x, &y| *x = e)` (also `if y == 0 { *x = e0 } else { *x = e }`: the general branch
+        is read, the branch under the zero test is R-C12-zerobranch's business): rebinds `a` in env; True if understood"""
+        parts = []
+        cur = peel_refs(call["recv"])
+        while cur.get("k") == "MethodCall" and cur["name"] == "and" and len(cur["args"]) == 1:
+            parts.append(cur["args"][0])
+            cur = peel_refs(cur["recv"])
+        if not (cur.get("k") == "Call" and len(cur.get("args", [])) == 1):
+            return False
+        parts.append(cur["args"][0])
+        parts.reverse()
+        first = parts[0]
+        if strip(first).get("k") != "Ref" or not strip(first).get("mut"):
+            return False
+        tgt = peel_refs(first)
+        if tgt.get("k") != "Path" or tgt.get("local") not in env:
+            return False
+        clo = strip(call["args"][0])
+        if clo.get("k") != "Closure" or len(clo["params"]) != len(parts):
+            return False
+        vals = [self.expr(c, p_, env) for p_ in parts]
+        env2 = dict(env)
+        names = []
+        for p_, v in zip(clo["params"], vals):
+            bs = list(pat_bindings(p_))
+            if len(bs) != 1:
+                return False
+            env2[bs[0]["local"]] = V(v.kind, v.r)
+            names.append(bs[0]["local"])
+        body = strip(clo["body"])
+        while body.get("k") == "Block" and not body.get("e") and len(body["stmts"]) == 1:
+            body = strip(body["stmts"][0])
+        while body.get("k") == "Block" and not body["stmts"] and body.get("e") is not None:
+            body = strip(body["e"])
+
+        def assigned(b):
+            b = strip(b)
+            while b.get("k") == "Block" and len(b["stmts"]) == 1 and b.get("e") is None:
+                b = strip(b["stmts"][0])
+            while b.get("k") == "Block" and not b["stmts"] and b.get("e") is not None:
+                b = strip(b["e"])
+            if b.get("k") == "Assign" and peel_refs(b["l"]).get("k") == "Path" and peel_refs(b["l"]).get("local") == names[0]:
+                return b["r"]
+            return None
+        rhs = assigned(body)
+        if rhs is None and body.get("k") == "If" and body.get("else") is not None:
+            from .zeroskip import zero_test_kind
+            if zero_test_kind(c, body["c"]) == "exact":
+                cnd = strip(body["c"])
+                neg = cnd.get("k") == "Binary" and cnd["op"] == "!="
+                rhs = assigned(body["then"] if neg else body["else"])
+        if rhs is None:
+            return False
+        env[tgt["local"]] = V(vals[0].kind, self.expr(c, rhs, env2).r)
+        return True
+
+    @staticmethod
+    def linear_exponent(r):
+        """(c0, atom, c1) with integer c0, c1 if r is c0 + c1 * atom for one scalar atom, else None"""
+        if r.den.d != {(): Fraction(1)}:
+            return None
+        c0, q, c1 = Fraction(0), None, Fraction(0)
+        for m, cf in r.num.d.items():
+            if m == ():
+                c0 = cf
+            elif len(m) == 1 and m[0][1] == 1 and q in (None, m[0][0]):
+                q, c1 = m[0][0], cf
+            else:
+                return None
+        if q is None or c0.denominator != 1 or c1.denominator != 1:
+            return None
+        return int(c0), q, int(c1)
+
+    def diff(self, r, x):
+        """d r / d x for the atom x (other plain atoms are constants); ln and symbolic powers by the chain rule"""
+        def d_atom(a):
+            if a == x:
+                return Rat.const(1)
+            if a in self.args:
+                kind, arg = self.args[a]
+                if x not in (arg.num.atoms() | arg.den.atoms()) and not any(b in self.args for b in (arg.num.atoms() | arg.den.atoms())):
+                    return Rat.const(0)
+                da = self.diff(arg, x)
+                if kind == "ln":
+                    return da / arg
+                if kind == "exp":
+                    return Rat(Poly.atom(a)) * da
+                if kind.startswith("powsym:"):
+                    q = kind.split(":", 1)[1]
+                    return Rat(Poly.atom(q)) * Rat(Poly.atom(a)) / arg * da
+                raise Unsupported("derivative of %s" % kind)
+            if a.startswith(("S[", "MAX[", "MIN[")):
+                raise Unsupported("derivative of a reduction")
+            return Rat.const(0)
+
+        def d_poly(p):
+            out = Rat.const(0)
+            for m, cf in p.d.items():
+                for a, pw in m:
+                    rest = dict(m)
+                    rest[a] = pw - 1
+                    mono = tuple(sorted((b, q_) for b, q_ in rest.items() if q_ != 0))
+                    out = out + Rat(Poly({mono: cf * pw})) * d_atom(a)
+            return out
+        dn, dd = d_poly(r.num), d_poly(r.den)
+        return (dn * Rat(r.den) - Rat(r.num) * dd) / Rat(r.den * r.den)
 
     def is_err(self, c, b):
         """a block whose value is `Err(..)` / `return Err(..)` / a panic"""
@@ -437,6 +551,9 @@ class Formula:
             return V("elem", (recv, other))       # a pair; consumed by map
         if nm in ELEMFN and not args:
             return V(recv.kind, self.fn_atom(nm, recv.r))
+        if nm in ("max", "min") and len(args) == 1 and self.const_of(c, args[0]) is not None:
+            self.notes.append(nm)
+            return V(recv.kind, self.fn_atom("clip", recv.r))
         if nm in ("clamp",) and len(args) == 2:
             self.notes.append("clamp")
             return V(recv.kind, self.fn_atom("clip", recv.r))
@@ -446,6 +563,18 @@ class Formula:
             return V(recv.kind, Rat.const(1) / recv.r)
         if nm in ("powi", "powf", "pow") and len(args) == 1:
             cv = self.const_of(c, args[0])
+            if cv is None:
+                ev = self.expr(c, args[0], env)
+                lin = self.linear_exponent(ev.r) if ev.kind == "scal" else None
+                if lin is not None:
+                    c0, q, c1 = lin
+                    out = Rat.const(1)
+                    pw = self.fn_atom("powsym:" + q, recv.r)
+                    for base, k_ in ((recv.r, c0), (pw, c1)):
+                        for _ in range(abs(k_)):
+                            out = out * base if k_ > 0 else out / base
+                    return V(recv.kind, out)
+                raise Unsupported("power with an exponent that is not c0 + c1 * parameter")
             if cv is not None and cv.denominator == 1 and 0 <= cv <= 6:
                 out = Rat.const(1)
                 for _ in range(int(cv)):
